@@ -456,7 +456,9 @@ func Gen(r *verifh.Rng, nsec int, via string) []verifh.Section {
 		}
 		holdSec := r.Chance(1, 6) && k >= 2
 		// some user functions panic (sf, lc): the deferred cleanup must still free the key and wake the waiters
-		panicSec := mode != "rm" && r.Chance(1, 4)
+		// (rm: the leader's GetResource panics and so do the joiners of that flight; not for the users driven through
+		// Take: collection.Cache.Take hands (nil, nil) to the joiners of a panicking fetch)
+		panicSec := via == "" && r.Chance(1, 4)
 		var ops []string
 		id := 0
 		if mode == "rm" && via == "" && r.Chance(1, 3) {
